@@ -20,6 +20,7 @@ import (
 	"errors"
 	"fmt"
 	"regexp/syntax"
+	"sort"
 	"sync"
 )
 
@@ -149,7 +150,23 @@ func (d *typeDictionary) resolveTypedefs() []error {
 	// When resolve typedefs, we may need to look up other typedefs.
 	// We gather all typedefs into a slice so we don't deadlock on
 	// typeDict.
-	for _, td := range d.typedefs() {
+	// Which typedef of a ring is entered first decides which one the
+	// circular definition is reported for, so resolve them in source order
+	// rather than in map order.
+	tds := d.typedefs()
+	sort.SliceStable(tds, func(i, j int) bool {
+		a, b := tds[i].Source, tds[j].Source
+		switch {
+		case a == nil || b == nil:
+			return b != nil
+		case a.file != b.file:
+			return a.file < b.file
+		case a.line != b.line:
+			return a.line < b.line
+		}
+		return a.col < b.col
+	})
+	for _, td := range tds {
 		errs = append(errs, td.resolve(d)...)
 	}
 	return errs
